@@ -472,6 +472,31 @@ fn components(rep: &Reporter) {
                 }
             }
         }
+        // an evaluation step (and a best-individual update behind it) is no stack operation: same height - also 0 -, every
+        // population below untouched, the top one the same individuals in the same order (now evaluated), also when it is empty
+        {
+            rep.case();
+            rep.nontrivial(hash_of(&("evaluate", height, pops.last().map(|p| p.len()))));
+            let mut st = state_with(&pops);
+            st.insert_evaluator(mahf::problems::evaluate::Sequential::<TagP>::new());
+            let ev = mahf::components::evaluation::PopulationEvaluator::new::<TagP>();
+            let r = catch(|| {
+                ev.init(&problem, &mut st).map_err(|e| e.to_string())?;
+                ev.execute(&problem, &mut st).map_err(|e| e.to_string())
+            });
+            let now = model_of_state(&st);
+            let mut want = pops.clone();
+            if let Some(top) = want.last_mut() {
+                for t in top.iter_mut() {
+                    t.1 = Some((t.0 as f64 * 0.5).to_bits());
+                }
+            }
+            if !matches!(r, Ok(Ok(()))) || now != want {
+                let kind = if now.len() != want.len() { "changes-the-stack-height" } else { "changes-the-populations" };
+                let shape = if height == 0 { "empty-stack" } else if pops[height - 1].is_empty() { "empty-top-population" } else { "nonempty-top-population" };
+                rep.violation(&format!("evaluation-step:{kind}:{shape}"), json!({"before": format!("{pops:?}"), "after": format!("{now:?}"), "result": format!("{r:?}")}));
+            }
+        }
         if height == 0 {
             continue;
         }
